@@ -1165,21 +1165,28 @@ def psy_layer_stage(ctx, prop_failures):
     rng = ctx.rng("psylayer")
     saved_api = Config.get()._api          # pylint: disable=protected-access
     cases = []
-    plans = [(a, f, pln, o, au, True) for a, f, pln, o, au in y.FIXED]
+    plans = [(fx[0], fx[1], fx[2], fx[3], fx[4], fx[5] if len(fx) > 5 else None) for fx in y.FIXED]
     files = [("lfric", f) for f in y.LFRIC_FILES] + [("gocean", f) for f in y.GOCEAN_FILES]
     try:
         for k in range(ctx.pick(10, 120)):
             api, f = files[k % len(files)] if k < len(files) else rng.choice(files)
             pln, o, au = y.random_plan(rng, pl.create(api, f))
-            plans.append((api, f, pln, o, au, False))
-        for api, f, pln, o, au, fixed in plans:
+            plans.append((api, f, pln, o, au, y.random_shared(rng)))
+        for api, f, pln, o, au, shared in plans:
             try:
-                r = y.run_plan(pl, api, f, pln, o, au)
+                r = y.run_plan(pl, api, f, pln, o, au, shared)
             except Exception as e:          # code generation refused the combination: counted, not judged
                 ctx.hist("psy_layer_plan", "error:" + type(e).__name__)
                 continue
             nreg = len(r["nodes"])
-            ctx.count(("psy", api, f, pln, o, au), nreg >= 2)
+            ctx.count(("psy", api, f, pln, o, au, shared), nreg >= 2)
+            ctx.hist("psy_layer_options", shared or "fresh-per-apply")
+            for m_ in r["options_modified"]:
+                # a side effect on the caller's dict; judged only through its consequences (duplicate names below)
+                ctx.hist("psy_layer_options_dict_modified_by", "%s:%s" % (api, m_[1]))
+                ctx.notes.setdefault("options_dict_modified", []).append(
+                    {"api": api, "file": f, "family": m_[1], "before": m_[2], "after": m_[3]}) \
+                    if len(ctx.notes.get("options_dict_modified", [])) < 5 else None
             ctx.hist("psy_layer_plan", "%s:%s regions" % (api, nreg if nreg < 6 else "6+"))
             ctx.hist("psy_layer_schemes", "+".join(sorted({n[2][0] for n in r["nodes"]})) or "none")
             cases.append((y.coq_case(r), r))
@@ -1188,6 +1195,10 @@ def psy_layer_stage(ctx, prop_failures):
                    "regions": [{"invoke": ii, "children": [lo, hi], "family": fam, "user_name": u}
                                for ii, lo, hi, fam, u in pln],
                    "application_order": o, "automatic_profiling": au,
+                   "options_argument": {None: "a fresh dict per apply", "plain": "ONE dict object {'create_driver': False} passed to "
+                                        "every apply", "named": "ONE dict object with region_name=('usermod','u7') passed to every "
+                                        "apply"}[shared],
+                   "options_dict_modified_by_apply": r["options_modified"],
                    "PreStart_names_in_generated_code": [(e[0], e[3], e[4]) for e in r["events"] if e[1] == "E"],
                    "replay": "PSyFactory(api, distributed_memory=False).create(parse(file)); PSyDataTrans._used_kernel_names={}; "
                              "apply LFRicExtractTrans/GOceanExtractTrans (extract), ProfileTrans, NanTestTrans, ReadOnlyVerifyTrans to "
